@@ -2,8 +2,27 @@
 import builtins
 
 
+DEBUG_SLOW = False
+
+
 class Unsupported(Exception):
     pass
+
+
+def conc(x):
+    """cheap syntactic concretisation: z3.simplify cancels equal symbolic sums without a solver query"""
+    try:
+        from crosshair.tracers import NoTracing
+        from crosshair.libimpl.builtinslib import SymbolicInt
+        import z3
+    except ImportError:
+        return x
+    with NoTracing():
+        if isinstance(x, SymbolicInt):
+            s = z3.simplify(x.var)
+            if z3.is_int_value(s):
+                return s.as_long()
+    return x
 
 
 class Piece:
@@ -56,6 +75,13 @@ class Fill(Piece):
     def __repr__(self): return 'Fill(%r,%r)' % (self.ch, self.count)
 
 
+def eq0(x, y):
+    d = conc(x - y)
+    if not is_symbolic(d):
+        return d == 0
+    return x == y
+
+
 def _norm(kind, enc, pieces):
     """drop empty pieces, merge literals; collapse to real str/bytes if fully concrete"""
     out = []
@@ -66,7 +92,7 @@ def _norm(kind, enc, pieces):
             if out and isinstance(out[-1], Lit):
                 out[-1] = Lit(out[-1].v + p.v)
                 continue
-        if isinstance(p, Opq) and out and isinstance(out[-1], Opq) and out[-1].src == p.src and out[-1].enc == p.enc and out[-1].hi == p.lo:
+        if isinstance(p, Opq) and out and isinstance(out[-1], Opq) and out[-1].src == p.src and out[-1].enc == p.enc and eq0(out[-1].hi, p.lo):
             out[-1] = Opq(p.src, out[-1].lo, p.hi, p.enc)
             continue
         if isinstance(p, Fill) and out and isinstance(out[-1], Fill) and out[-1].ch == p.ch:
@@ -95,11 +121,17 @@ class Rope:
             return x
         return mk(kind, None, [Lit(x)] if len(x) else [])
 
+    def bounds(self):
+        b = getattr(self, '_bounds', None)
+        if b is None:
+            b = [0]
+            for p in self.pieces:
+                b.append(conc(b[-1] + p.length()))
+            self._bounds = b
+        return b
+
     def __len__(self):
-        n = 0
-        for p in self.pieces:
-            n = n + p.length()
-        return n
+        return self.bounds()[-1]
 
     def __bool__(self):
         if len(self) > 0:
@@ -119,9 +151,26 @@ class Rope:
     def __getitem__(self, sl):
         if not isinstance(sl, slice) or sl.step is not None:
             raise Unsupported('only plain slices')
-        n = len(self)
-        a = 0 if sl.start is None else sl.start
-        b = n if sl.stop is None else sl.stop
+        n = conc(len(self))
+        a = 0 if sl.start is None else conc(sl.start)
+        b = n if sl.stop is None else conc(sl.stop)
+        bd = self.bounds()
+        def find(x):
+            for i in range(len(bd)):
+                d = conc(x - bd[i])
+                if not is_symbolic(d) and d == 0:
+                    return i
+            return None
+        ia = find(a); ib = find(b)
+        if ia is not None and ib is not None:
+            return _norm(self.kind, self.enc, self.pieces[ia:ib] if ib >= ia else [])
+        if DEBUG_SLOW:
+            from crosshair.tracers import NoTracing
+            with NoTracing():
+                import sys
+                def sx(v):
+                    return str(v.var) if hasattr(v, 'var') else repr(v)
+                print('SLOW', sx(a), '|', sx(b), '|', [sx(x) for x in bd], file=sys.stderr)
         if a < 0:
             a = n + a
             if a < 0: a = 0
@@ -134,9 +183,9 @@ class Rope:
         out = []
         cum = 0
         for p in self.pieces:
-            L = p.length()
-            lo = a - cum
-            hi = b - cum
+            L = conc(p.length())
+            lo = conc(a - cum)
+            hi = conc(b - cum)
             if hi <= 0:
                 break
             if lo < L:
@@ -146,7 +195,7 @@ class Rope:
                     out.append(p)
                 else:
                     out.append(p.cut(lo, hi))
-            cum = cum + L
+            cum = conc(cum + L)
         return _norm(self.kind, self.enc, out)
 
     def encode(self, encoding):
